@@ -19,6 +19,21 @@ CHECKS = {
             "For generated write scripts every single-site tamper of a systematic family (bit flips of every byte, every truncation, extensions, deletions, chunk swaps, object replacement/swaps, structured CBOR edits of every metadata field incl. every subset of stripped auth fields, re-pointed generations, earlier authentic documents) is applied and every read path must return the written bytes or fail; backend objects are scanned for plaintext windows and nonce reuse after every write.",
             "Single-site tampering only (the property's quantifier); coordinated roll-back of metadata AND payload is outside it. AES-GCM and the CBOR codec are trusted; nonce uniqueness is only checked over generated histories.",
             "§5 C09"),
+    "C10": ("vf-index", "exploration",
+            "model-based stateful property testing against BTreeMap<K, BTreeSet<id>> (proptest histories), flush-prefix crash enumeration, controlled thread-schedule exploration at instrumented yield points (exhaustive for fixed pairs, generated beyond)",
+            "Generated histories over BTreeIndex (tiny buckets, unique and duplicate mode, u64 and String keys) are compared with an ordered multimap after EVERY operation through keys(), every point query, full scans in both directions, generated range-query trees with early stop at every position, prefix queries; every flush can be cut after any prefix of its object writes and a fresh load must equal the last committed or the interrupted flush; the pre-manifest layout is produced and loaded; 2-3 mutator/compaction threads are interleaved at verif_point! yield points (all interleavings for fixed pairs) and must lose or duplicate nothing.",
+            "Trusts the harness model and proptest; thread interleavings are explored at the instrumented yield points only (not inside one lock-free window); flush concurrent with mutations is documented as unsupported and not generated; return values of successful operations under a race are not part of the oracle (only refusals, contents, structural consistency, flush+load).",
+            "§5 C10"),
+    "C11": ("vf-index", "exploration",
+            "model-based stateful property testing against a naive inverted index (proptest histories), metamorphic ranking laws, flush-prefix crash enumeration, controlled thread-schedule exploration",
+            "Generated histories over BM25Index (tiny buckets; insert, remove with original and NON-original text, re-insert, purge_ids, compaction, complete and cut flushes, reloads) are checked after EVERY operation: every word's term query returns exactly the live documents containing one of its tokens, counters feeding the scores equal the documents'; generated boolean trees (depth<=3, parenthesised or relying on documented precedence) return exactly the set their structure denotes under 12 parameter settings incl. NaN/inf/negative, with finite non-negative scores ordered by (score desc, id asc), top-k prefix law and repeatability; loads after cut flushes equal a committed snapshot; insert/remove/compact threads are interleaved at yield points and must lose nothing.",
+            "Trusts the default tokenizer as the documented bridge from text to tokens (used by the reference too), the harness's own set-algebra evaluator and proptest. One listed known finding (same-id insert overlapping an in-flight remove) is excluded by its schedule signature and counted.",
+            "§5 C11"),
+    "C12": ("vf-index", "exploration",
+            "model-based property testing against brute-force exact neighbours (proptest histories with seeded graph layers), flush-prefix crash enumeration, seeded recall statistics on the documented workloads",
+            "Generated insert/remove/re-insert/flush/cut-flush/reload/search histories over all metrics, dimensions 2..64, both selection strategies, tiny M: every search returns <= k distinct live ids in non-decreasing distance order with distances equal (2e-4) to the documented metric on the stored bf16 vector; loads after any cut flush succeed, list only committed (or interrupted) ids with committed-or-interrupted vectors and stay sound. The documented recall workloads plus an interrupted-flush + re-index workload are re-run over several seeds and compared with the documented floors (fixed margin 0.05 for the interrupted case).",
+            "Recall is a statistic (mean over seeds vs documented average floor, per seed vs worst-case floor); completeness of a single search is not demanded. Graph layers come from the seeded verif hook. Trusts the harness's f64 metric implementations and proptest.",
+            "§5 C12"),
 }
 
 NOT_YET = {
